@@ -5,9 +5,10 @@ def run(ctx):
     st = [dict(variant="asan", name="c04", sources=["checks/c04_auth.c", "harness/mx_wraps.c"], wraps=WRAPS, libs=["-lcrypto"], cflags=["-I" + vflib.VERIF + "/gen", "-DCERTGEN_REV=" + rev],
                shards=vflib.NCPU, timeout=3600 if ctx.thorough else 1500)]
     rule = ("Each case = one handshake (fork()ed child) between a verifying endpoint and a peer whose credentials were minted for one ground-truth label (good, expired / not-yet-valid leaf, "
-            "untrusted CA, corrupt signature, wrong expected name, issuer not a CA, unknown critical extension, expired intermediate, self-signed unanchored, wrong private key) x 16 scenarios "
+            "untrusted CA, corrupt signature, wrong expected name, issuer not a CA, unknown critical extension, expired intermediate, self-signed unanchored, wrong private key, path length exceeded at the trust anchor / at an intermediate, verifier without any trust anchor), most labels both with the leaf "
+            "directly under the anchor and under an intermediate CA sent along (defect in a non-last certificate on the wire), x 16 scenarios "
             "(client verifying server over TLS 1.1/1.2/1.3/DTLS with RSA transport, ECDHE-RSA, ECDHE-ECDSA, TLS 1.3 RSA/ECDSA/Ed25519; server verifying client) x {no, strict, permissive} "
-            "callback. distinct_nontrivial = distinct (version, scenario, role, label, callback) executed.")
+            "callback. distinct_nontrivial = distinct (version, scenario, role, label, callback, chain shape) executed.")
     return vflib.std_run(ctx, st, "exploration", rule,
         ["labels are ground truth by construction (gen/certgen.h signs with libcrypto)", "validity failures use +-10 days (the library grants 24 h of linger)",
          "transcript-replay / stale-signature proofs of possession are covered by C06/C07's tampering cases, not here"], min_nontrivial=300)
